@@ -147,6 +147,7 @@ class TopGen:
                 # a statement-level poryswitch splices the selected case into the block (switch V=ZZ)
                 if w < 0.2: inner = "  poryswitch(V) { A { other(\"never\") } _ {\n%s  } }\n" % inner
                 elif w < 0.3: inner = "  poryswitch(V) { _: skip ZZ {\n%s  } }\n" % inner
+                elif w < 0.45: inner = "  poryswitch(V) { _ { ph(\"phantom %d\") applymovement(9, moves(face_up jump_%d)) } ZZ {\n%s  } A { ph2(\"never\") } }\n" % (self.n, self.n, inner)
                 src.append("script%s %s {\n%s}\n" % (sc, name, inner))
             elif x < 0.6 and not self.plain:
                 name = self.fresh("Text"); typ = r.choice(TEXT_TYPES); content = gen_content(r)
@@ -830,7 +831,7 @@ def gen_C16(rnd, n, tier):
     for i in range(n):
         tg = TopGen(rnd, tier); src0 = tg.gen(rnd.randint(1, 4))
         src = relayout(src0, rnd) if rnd.random() < 0.8 else src0
-        if rnd.random() < 0.3: src = rnd.choice(["\n\n", "  \n", "\r\n", "\t", "# header\n\n", " "]) + src     # the file may start with blank lines
+        if rnd.random() < 0.3: src = rnd.choice(["\n\n", "  \n", "\r\n", "\t", "# header\n\n", " ", "# 7 potions are handed out below\n", "# 100 percent\n\n", "#1 \"x.pory\"\n", "// 3 x\n"]) + src     # the file may start with blank lines / comments
         if rnd.random() < 0.2: src = src + rnd.choice(["\n\n\n", "  ", "\n# eof"])
         path = rnd.choice(["in.pory", "dir\\sub\\file.pory", "a b.pory", "", "Route%20101.pory", "%d_%s\\x.pory", "é \"q\".pory"])
         opt = rnd.random() < 0.5
@@ -913,10 +914,13 @@ class Pory:
             return ("if (flag(F)) { %s }" % b, lambda sw, bs=bs: (None if bs(sw) is None else "if (flag(F)) { %s }" % bs(sw)))
         if x < 0.78:
             t = "PL%s:" % r.choice("abc"); return (t, lambda sw, t=t: t)       # a label statement (also the only statement of a case; the same name in several cases)
-        if x < 0.84:
+        if x < 0.82:
             # a statement that the parser expands to two (auto-var command + switch), also as the single statement of a `key:` case
             t = r.choice(["switch (random(3)) { case 0: z0 case 1: z1 }", "switch (checkitem(ITEM_A, 1)) { case 1: z2 }", "if (checkitem(ITEM_B, 1)) { z3 }", "while (random(2) == 1) { z4 }"])
             return (t, lambda sw, t=t: t)
+        if x < 0.86 and depth < 2:
+            w = "switch (var(VAR_Q)) { case 0: poryswitch(V) { A: m0 B { } _: } case 1: m1 case 2: poryswitch(V) { A { } _: m2 } default: m3 }"
+            return (w, lambda sw: "switch (var(VAR_Q)) { case 0: %s case 1: m1 case 2: %s default: m3 }" % ("m0" if sw == "A" else "", "" if sw == "A" else "m2"))
         if x < 0.88 and depth == 0:
             # `continue` / `break` spliced in by a case: followed by further statements of that case (invalid for A), or last (valid)
             kw = r.choice(["continue", "break"]); lp = r.choice(["while (flag(L)) { a %s }", "do { a %s } while (flag(L))"])
